@@ -40,6 +40,14 @@ def main():
     print("TLAPS GateProof with the latch as found (SetCount does not broadcast): %s %s" % (failed[:1], "OK (one obligation, SetCount, unprovable)" if good else "UNEXPECTED"))
     ok &= bool(good)
     shutil.rmtree(d, ignore_errors=True)
+    d = tempfile.mkdtemp(prefix="verif-proof-")
+    shutil.copy(os.path.join(tlc.SPEC, "FrontEnd.tla"), d)
+    src = open(os.path.join(tlc.SPEC, "FrontEndProof.tla")).read().replace("FEAsFound = FALSE", "FEAsFound = TRUE")
+    open(os.path.join(d, "FrontEndProof.tla"), "w").write(src)
+    okp, nobl, out = tlc.tlapm("FrontEndProof", spec_dir=d, timeout=600)
+    print("TLAPS FrontEndProof with the front end as found (no mutex around initDone): %s" % ("UNEXPECTED: proved" if okp else "OK (not provable)"))
+    ok &= not okp
+    shutil.rmtree(d, ignore_errors=True)
     if "--mc-only" in sys.argv:
         return 0 if ok else 1
     st = subprocess.run(["git", "-C", "/repo", "status", "--short"], capture_output=True, text=True).stdout.strip()
